@@ -12,11 +12,15 @@
    One parameter of any name after the bracketed URI (C09_uri_and_parameter, NameAddrParam.v): the
    dispatch tag / expires / q / lr / other receives exactly the name text and the value text; the
    parameter span and whole-value span close at the end of the value (q and expires numbers: C10).
+   The list (ContactSpec.v, C09_contact_list): ParseAllContactValues on "<" uri ">" *( "," "<" uri ">" )
+   end-of-line, at any offset, into a fresh list of any capacity: ok after the line, every value
+   counted (also those that do not fit), value j = URI j at its own offset, the header-value span runs
+   from the first "<" to the last ">".
    PARTIAL: quoted display names, bare URIs with parameters, several parameters,
-   white space and folds around ';' '=' ',', multi-value splitting at commas and the expires summary
+   white space and folds around ';' '=' ',', commas inside quotes / brackets and the expires summary
    are not proved against the grammar: render/parse oracle on values, lists and messages (offsets
    != 0, chunked, reused objects) and correspondence. *)
-From Sipsp Require Import Harness IP4 Numbers Misc NameAddrSpec NameAddrParam.
+From Sipsp Require Import Harness IP4 Numbers Misc NameAddrSpec NameAddrParam ContactSpec.
 Theorem C09_contact_expires_value : forall ds, all_digits ds -> expires_of ds = N.min (dec ds) MaxU32.
 Proof. exact contact_expires_saturates. Qed.
 Theorem C09_multi_value_header_kinds : forall h,
@@ -63,6 +67,30 @@ Theorem C09_parameter_result_fields : forall h p0 e s,
   fb_q (pfin h p0 e s) = fb_q s /\ fb_perr (pfin h p0 e s) = fb_perr s /\ fb_expires (pfin h p0 e s) = fb_expires s /\
   fb_hasexp (pfin h p0 e s) = fb_hasexp s /\ fb_lr (pfin h p0 e s) = fb_lr s /\ fb_tag (pfin h p0 e s) = fb_tag s /\ fb_uri (pfin h p0 e s) = fb_uri s.
 Proof. exact pfin_q. Qed.
+(* ---- the Contact list ------------------------------------------------------------------------------------------------------------------- *)
+Theorem C09_contact_list : forall us (junk : list byte) x tail n, us <> [] -> Forall (Forall uchar) us -> is_sp x = false ->
+  let i := nnat (length junk) in
+  let vs := cl_vals i us in
+  exists C, parse_all_contacts (junk ++ cl_bytes us ++ CR :: LF :: x :: tail) i (contacts_init (repeat pfrom0 n))
+            = Done (i + nnat (length (cl_bytes us)) + 2) EOk C /\
+    ct_n C = nnat (length us) /\
+    (forall j, (j < length us)%nat -> (j < n)%nat -> nth j (ct_vals C) pfrom0 = nth j vs pfrom0) /\
+    ct_lasthval C = mkpf i (nnat (length (cl_bytes us))).
+Proof. exact contact_list_spec. Qed.
+(* value j: the URI between the brackets at its own offset, as a Contact value *)
+Theorem C09_contact_list_values : forall i (u u2 : list byte) us,
+  cl_vals i (u :: u2 :: us) = uval HdrContact i (nnat (length u)) :: cl_vals (i + nnat (length u) + 3) (u2 :: us) /\
+  cl_vals i [u] = [uval HdrContact i (nnat (length u))] /\
+  uval HdrContact i (nnat (length u)) = mkpfrom pf0 (mkpf (i + 1) (nnat (length u))) pf0 false false false HdrContact 0 0 pf0 (mkpf i (nnat (length u) + 2)) EOk 0 FbFIN 0 0 0 0 0.
+Proof. intros. repeat split; reflexivity. Qed.
+(* "<sip:a>,<sip:b>" CRLF "X": two values, one slot *)
+Example C09_contact_list_example :
+  Forall (Forall uchar) [[115;105;112;58;97]; [115;105;112;58;98]] /\
+  match parse_all_contacts [60;115;105;112;58;97;62;44;60;115;105;112;58;98;62;13;10;88] 0 (contacts_init (repeat pfrom0 1)) with
+  | Done 17 EOk C => ct_n C = 2 /\ ct_lasthval C = mkpf 0 15 /\ fb_uri (nth 0 (ct_vals C) pfrom0) = mkpf 1 5
+  | _ => False
+  end.
+Proof. split; [repeat constructor|vm_compute; repeat split; reflexivity]. Qed.
 (* the hypotheses are satisfiable: "Bob <sip:b>" and "<sip:b>;tag=x1" (evaluated) *)
 Example C09_example :
   parse_nameaddr HdrFrom [66;111;98;32;60;115;105;112;58;98;62;13;10;13;10] 0 pfrom0
